@@ -782,6 +782,8 @@ func main() {
 			if v, _, err := ref.ADecode(b); err == nil && rp.Kind == "tree" {
 				checkTree(r, v)
 			}
+		case "reentrant":
+			reentrantWriters(r)
 		case "nest":
 			self, _ := os.Executable()
 			out, err := exec.Command(self, "worker", rp.Family, strconv.Itoa(rp.Depth)).CombinedOutput()
@@ -835,6 +837,7 @@ func main() {
 	r.Sample(map[string]string{"bytes": "all strings of length <= " + strconv.Itoa(maxLen) + " over {00,01,02,03,05,06,08,09,0a,0c,0d,ff}"})
 	mutatedFields(r)
 	buildMetadata(r)
+	reentrantWriters(r)
 	nesting(r)
 	r.Sample(map[string]interface{}{"nest": "family=object depth=5592405 (16 MiB)"})
 	r.Finish()
